@@ -60,6 +60,7 @@ func VerifP_C03_Determinism(i int) {
 	v0, _ := d.ValidateFile(ctx, vf)
 	end := hcl.Pos{Line: 1, Column: 1, Byte: 0}
 	c0, _ := d.CompletionAtPos(ctx, vf, end)
+	l0, _ := d.LinksInFile(vf)
 	for k := 0; k < verifRuns(); k++ {
 		verifPermuteMaps(1 + verifChoice("mode", 2))
 		t1, _ := d.CollectReferenceTargets()
@@ -68,7 +69,9 @@ func VerifP_C03_Determinism(i int) {
 		y1, _ := d.SymbolsInFile(vf)
 		v1, _ := d.ValidateFile(ctx, vf)
 		c1, _ := d.CompletionAtPos(ctx, vf, end)
+		l1, _ := d.LinksInFile(vf)
 		verifPermuteMaps(0)
+		verifAssert(verifDeepEqual(l1, l0), "C03:links-deterministic")
 		verifAssert(verifDeepEqual(t1, t0), "C03:targets-deterministic")
 		verifAssert(verifDeepEqual(o1, o0), "C03:origins-deterministic")
 		verifAssert(verifDeepEqual(s1, s0), "C03:semtok-deterministic")
@@ -93,6 +96,51 @@ func VerifP_C03_Determinism(i int) {
 			if q < len(c1.List) {
 				verifAssert(c0.List[q].Label == c1.List[q].Label, "C03:candidates-order-deterministic")
 			}
+		}
+	}
+	verifReach("end")
+}
+
+// C03 at a position: completion, hover and signature help at any position of the (unstretched)
+// seed, in insertion order and with every map reversed / rotated.
+func VerifP_C03_DeterminismAtPos_N() int            { return len(verifSeedList()) }
+func VerifP_C03_DeterminismAtPos_Name(i int) string { return verifSeedList()[i].name }
+func VerifP_C03_DeterminismAtPos(i int) {
+	s := verifSeedList()[i]
+	f := verifStretch(s.src, vf, 0, 0)
+	pc := &PathContext{Schema: verifSchemas(s.schema), Files: map[string]*hcl.File{vf: f}, Functions: verifFunctions(), ReferenceTargets: verifTargets(), Validators: verifValidators()}
+	dd := NewDecoder(&verifPathReader{paths: map[string]*PathContext{"dir": pc}})
+	dd.SetContext(NewDecoderContext())
+	d, _ := dd.Path(lang.Path{Path: "dir"})
+	ctx := context.Background()
+	pos := verifAnyPos(vf)
+	c0, ce0 := d.CompletionAtPos(ctx, vf, pos)
+	h0, he0 := d.HoverAtPos(ctx, vf, pos)
+	g0, ge0 := d.SignatureAtPos(vf, pos)
+	for k := 0; k < verifRuns(); k++ {
+		verifPermuteMaps(1 + verifChoice("mode", 2))
+		c1, ce1 := d.CompletionAtPos(ctx, vf, pos)
+		h1, he1 := d.HoverAtPos(ctx, vf, pos)
+		g1, ge1 := d.SignatureAtPos(vf, pos)
+		verifPermuteMaps(0)
+		at := verifCursorTag()
+		verifAssert((ce0 == nil) == (ce1 == nil), "C03:completion-error-deterministic"+at)
+		verifAssert(len(c1.List) == len(c0.List), "C03:candidates-count-deterministic"+at)
+		for q := range c0.List {
+			if q < len(c1.List) {
+				verifAssert(c0.List[q].Label == c1.List[q].Label, "C03:candidates-order-deterministic"+at)
+				verifAssert(c0.List[q].TextEdit.Snippet == c1.List[q].TextEdit.Snippet, "C03:candidate-snippet-deterministic"+at)
+			}
+		}
+		verifAssert((he0 == nil) == (he1 == nil), "C03:hover-error-deterministic"+at)
+		verifAssert((h0 == nil) == (h1 == nil), "C03:hover-presence-deterministic"+at)
+		if h0 != nil && h1 != nil {
+			verifAssert(h0.Content.Value == h1.Content.Value, "C03:hover-content-deterministic"+at)
+		}
+		verifAssert((ge0 == nil) == (ge1 == nil), "C03:signature-error-deterministic"+at)
+		verifAssert((g0 == nil) == (g1 == nil), "C03:signature-presence-deterministic"+at)
+		if g0 != nil && g1 != nil {
+			verifAssert(g0.Name == g1.Name && g0.ActiveParameter == g1.ActiveParameter, "C03:signature-deterministic"+at)
 		}
 	}
 	verifReach("end")
